@@ -113,6 +113,7 @@ type FnCtx struct {
 	bounded    map[string]bool
 	ghostFuncs map[string]ghostFn
 	stack      []*ssa.Function
+	assumeMode bool // specification currently evaluated is going to be assumed (not proved)
 }
 
 type assignLoc struct {
@@ -138,6 +139,8 @@ type Frame struct {
 	names       map[string]ssa.Value // debug names (last def)
 	sigOverride *types.Signature
 	debugRefs   map[string][]ssa.Value
+	callStates  map[string][]*State
+	preCallStates map[string][]*State
 	lastRet     *ssa.Return
 	addrNames   map[string]ssa.Value // names of address-taken variables -> their address
 	prefix      string
@@ -293,16 +296,15 @@ func (fx *FnCtx) heap(st *State, key, sort string) Term {
 	name = "|" + strings.ReplaceAll(name, "|", "_") + "|"
 	if !fx.s.declared[name] {
 		fx.s.declare(name, "(Array Ref "+sort+")")
-		if st.base == "0" {
-			fx.entryHeapWF(key, name)
-		}
+		_ = key // well-formedness of values read from the heap is assumed per read (wfFacts), not by a global axiom
 	}
 	st.heaps[key] = name
 	return name
 }
 
-// entryHeapWF: every pointer stored in the heap at function entry was allocated before entry.
-func (fx *FnCtx) entryHeapWF(key, h string) {
+// heapWF: every pointer stored in heap h was allocated no later than allocBound (holds for every reachable Go
+// heap: a stored pointer refers to an object that already exists).
+func (fx *FnCtx) heapWF(key, h string, allocBound Term) {
 	t, ok := fx.heapType[key]
 	if !ok {
 		return
@@ -315,12 +317,12 @@ func (fx *FnCtx) entryHeapWF(key, h string) {
 		}
 		switch u := types.Unalias(t).Underlying().(type) {
 		case *types.Pointer, *types.Map:
-			facts = append(facts, fmt.Sprintf("(<= (obj %s) alloc0)", v))
+			facts = append(facts, fmt.Sprintf("(<= (obj %s) %s)", v, allocBound))
 		case *types.Slice:
-			facts = append(facts, fmt.Sprintf("(<= (sobj %s) alloc0)", v))
+			facts = append(facts, fmt.Sprintf("(<= (sobj %s) %s)", v, allocBound))
 		case *types.Struct:
 			if isTimeTime(t) {
-				facts = append(facts, fmt.Sprintf("(<= (obj (t_loc %s)) alloc0)", v))
+				facts = append(facts, fmt.Sprintf("(<= (obj (t_loc %s)) %s)", v, allocBound))
 				return
 			}
 			si := fx.tm.structInfo(t)
@@ -438,30 +440,45 @@ func (fx *FnCtx) allocRef(st *State, n Term) Term {
 	return "(mkref " + na + " 0)"
 }
 
-// assume that a pointer-like value read from memory / parameters was allocated before now
-func (fx *FnCtx) assumeOld(st *State, t types.Type, v Term) {
+// wfFacts: facts every value of type t read from a reachable Go state satisfies: pointers refer to objects that
+// already exist (obj <= current allocation counter), slices are well formed, integers are in range.
+func (fx *FnCtx) wfFacts(st *State, t types.Type, v Term, depth int) []Term {
+	var out []Term
+	if depth > 3 {
+		return nil
+	}
 	switch u := types.Unalias(t).Underlying().(type) {
 	case *types.Pointer, *types.Map:
-		fx.s.assume(st.guard, fmt.Sprintf("(and (<= 0 (obj %s)) (<= (obj %s) %s) (=> (= (obj %s) 0) (= %s nilref)))", v, v, st.alloc, v, v))
-		_ = u
+		out = append(out, fmt.Sprintf("(and (<= 0 (obj %s)) (<= (obj %s) %s) (=> (= (obj %s) 0) (= %s nilref)))", v, v, st.alloc, v, v))
 	case *types.Slice:
-		fx.s.assume(st.guard, fmt.Sprintf("(and (<= 0 (sobj %s)) (<= (sobj %s) %s) (<= 0 (soff %s)) (<= 0 (slen %s)) (<= (slen %s) (scap %s)) (=> (= (sobj %s) 0) (= (scap %s) 0)))", v, v, st.alloc, v, v, v, v, v, v))
+		out = append(out, fmt.Sprintf("(and (<= 0 (sobj %s)) (<= (sobj %s) %s) (<= 0 (soff %s)) (<= 0 (slen %s)) (<= (slen %s) (scap %s)) (=> (= (sobj %s) 0) (= (scap %s) 0)))", v, v, st.alloc, v, v, v, v, v, v))
 	case *types.Basic:
 		if u.Info()&types.IsInteger != 0 {
-			fx.s.assume(st.guard, intRange(t, v))
+			out = append(out, intRange(t, v))
+		}
+		if u.Info()&types.IsString != 0 {
+			out = append(out, "(<= (str.len "+v+") 9223372036854775807)")
 		}
 	case *types.Struct:
 		if isTimeTime(t) {
-			fx.s.assume(st.guard, fmt.Sprintf("(and (<= 0 (obj (t_loc %s))) (<= (obj (t_loc %s)) %s))", v, v, st.alloc))
-			return
+			out = append(out, fmt.Sprintf("(and (<= 0 (obj (t_loc %s))) (<= (obj (t_loc %s)) %s))", v, v, st.alloc))
+			return out
 		}
 		si := fx.tm.structInfo(t)
 		for _, f := range si.Fields {
 			switch types.Unalias(f.Type).Underlying().(type) {
 			case *types.Pointer, *types.Map, *types.Slice, *types.Basic, *types.Struct:
-				fx.assumeOld(st, f.Type, "("+f.Sel+" "+v+")")
+				out = append(out, fx.wfFacts(st, f.Type, "("+f.Sel+" "+v+")", depth+1)...)
 			}
 		}
+	}
+	return out
+}
+
+// assume that a value read from memory / parameters is well formed in state st
+func (fx *FnCtx) assumeOld(st *State, t types.Type, v Term) {
+	for _, f := range fx.wfFacts(st, t, v, 0) {
+		fx.s.assume(st.guard, f)
 	}
 }
 
@@ -1000,6 +1017,12 @@ func (fr *Frame) enterLoop(li *loopInfo, pre *State) *State {
 		t := fr.evalClause(c, pre, li)
 		fx.oblige("inv-init", fmt.Sprintf("%s/inv-init/loop%d/%s", name, li.ordinal, c.Label), c.Text, pre, t, b.Instrs[0].Pos(), fr.props())
 	}
+	if fr.fc != nil {
+		for _, c := range fr.fc.Entries[li.ordinal] {
+			t := fr.evalClause(c, pre, li)
+			fx.oblige("inv-init", fmt.Sprintf("%s/entry/loop%d/%s", name, li.ordinal, c.Label), c.Text, pre, t, b.Instrs[0].Pos(), fr.props())
+		}
+	}
 	// 3. havoc
 	hs := pre.clone()
 	mod := fx.eng.loopModset(fr.fn, li)
@@ -1018,9 +1041,11 @@ func (fr *Frame) enterLoop(li *loopInfo, pre *State) *State {
 	for _, c := range fr.autoInvs(li) {
 		fx.s.assume(hs.guard, c.eval(hs))
 	}
+	fx.assumeMode = true
 	for _, c := range invs {
 		fx.s.assume(hs.guard, fr.evalClause(c, hs, li))
 	}
+	fx.assumeMode = false
 	if decr != nil {
 		sv := fr.evalSpec(decr.E, hs, li)
 		li.variant = fx.s.define("variant", "Int", sv.v.t)
@@ -1091,6 +1116,12 @@ func (fr *Frame) backEdge(from *ssa.BasicBlock, li *loopInfo, st *State) {
 	for _, c := range invs {
 		t := fr.evalClause(c, st, li)
 		fx.oblige("inv-pres", fmt.Sprintf("%s/inv-pres/loop%d/%s", name, li.ordinal, c.Label), c.Text, st, t, b.Instrs[0].Pos(), fr.props())
+	}
+	if fr.fc != nil {
+		for _, c := range fr.fc.Steps[li.ordinal] {
+			t := fr.evalClause(c, st, li)
+			fx.oblige("inv-pres", fmt.Sprintf("%s/step/loop%d/%s", name, li.ordinal, c.Label), c.Text, st, t, b.Instrs[0].Pos(), fr.props())
+		}
 	}
 	if decr != nil {
 		sv := fr.evalSpec(decr.E, st, li)
@@ -1324,6 +1355,13 @@ func (fr *Frame) execInstr(ins ssa.Instruction, st *State) {
 			fx.setHeap(st, key, srt, h)
 		} else {
 			fx.store(st, &Loc{base: refName, cell: elem}, tm.zero(elem))
+			if sty, ok := elem.Underlying().(*types.Struct); ok {
+				for i := 0; i < sty.NumFields(); i++ {
+					if isNamed(sty.Field(i).Type(), "bytes", "Buffer") {
+						st.ghost["hashP"] = "false" // a new buffer is empty
+					}
+				}
+			}
 		}
 		fr.env[x] = Val{t: refName}
 		if x.Comment != "" {
@@ -1932,7 +1970,28 @@ func (fx *FnCtx) box(v Val, t types.Type) Term {
 	fx.s.global(bx, fmt.Sprintf("(declare-fun %s (%s) Int)", bx, srt))
 	fx.s.global(ub, fmt.Sprintf("(declare-fun %s (Int) %s)", ub, srt))
 	fx.s.global(bx+"!ax", fmt.Sprintf("(assert (forall ((x %s)) (! (= (%s (%s x)) x) :pattern ((%s x)))))", srt, ub, bx, bx))
-	enc := fx.encode(v, t)
+	if b, ok := types.Unalias(t).Underlying().(*types.Basic); ok {
+		fixed := false
+		switch b.Kind() {
+		case types.Bool, types.Int8, types.Int16, types.Int32, types.Int64, types.Uint8, types.Uint16, types.Uint32, types.Uint64, types.Float32, types.Float64:
+			fixed = true
+		}
+		fx.s.global("fixedsize", "(declare-fun fixedsize (Int) Bool)")
+		if fixed {
+			fx.s.global(fmt.Sprintf("fixedsize!%d!ax", tag), fmt.Sprintf("(assert (fixedsize %d))", tag))
+		} else {
+			fx.s.global(fmt.Sprintf("fixedsize!%d!ax", tag), fmt.Sprintf("(assert (not (fixedsize %d)))", tag))
+		}
+	}
+	var enc Term
+	if v.loc != nil && len(v.loc.path) > 0 {
+		// an interior pointer converted to an interface (e.g. &h.b as io.Writer): opaque handle; only externals
+		// with a ghost model may use it
+		fx.s.global("fieldptr", "(declare-fun fieldptr (Ref Int) Ref)")
+		enc = fmt.Sprintf("(fieldptr %s %d)", v.loc.base, len(v.loc.path)*1000+v.loc.path[0].field)
+	} else {
+		enc = fx.encode(v, t)
+	}
 	return fmt.Sprintf("(mkiface %d (%s %s))", tag, bx, enc)
 }
 
@@ -1955,6 +2014,16 @@ func (fr *Frame) execTypeAssert(x *ssa.TypeAssert, st *State) {
 		if !x.CommaOk && types.Implements(x.X.Type(), ai) {
 			fr.safety("safe:typeassert", x, fr.describe(x), st, not(eq(iv, "niliface")))
 			fr.env[x] = Val{t: iv}
+			return
+		}
+		if x.CommaOk {
+			var conds []Term
+			for _, ct := range fx.eng.concreteImplementers(ai) {
+				conds = append(conds, fmt.Sprintf("(= (itag %s) %d)", iv, fx.tm.typeTag(ct)))
+			}
+			fx.assump["closed world: interface "+typeKey(x.AssertedType)+" is implemented only by the repository's own types"] = true
+			ok := fx.s.define("taok", "Bool", or(conds...))
+			fr.env[x] = Val{tup: []Val{{t: ite(ok, iv, "niliface")}, {t: ok}}}
 			return
 		}
 		unsupported("type assertion to interface type")
